@@ -265,3 +265,60 @@ Proof. repeat split; vm_compute; reflexivity. Qed.
 Example steps_example :
   steps_taken cfg_lost (init_job cfg_lost) (init_state (init_job cfg_lost) (heights cfg_lost)) sched_lost = 112.
 Proof. vm_compute. reflexivity. Qed.
+
+(** * The guard of the delivery theorem, spelled out
+
+    [servable c h]: some peer of the task list REPORTS a height >= h (the
+    value availbTask reads from PeerInfoManager.PeerHeight) and answers h with
+    the block of height h.  Nothing is asked of the latencies (the order in
+    which availbTask walks the list) or of the other peers' reported heights:
+    a peer that is behind h may sort before every peer that has it. *)
+Lemma servable_iff c h :
+  servable c h = true <->
+  exists p, In p (job_peers c) /\ (h <= c_adv c p)%Z /\ c_beh c p h = ROk.
+Proof.
+  unfold servable. rewrite existsb_exists. split.
+  - intros [p [Hin Hs]]. exists p. unfold serves in Hs.
+    apply andb_true_iff in Hs. destruct Hs as [Hle Hb].
+    apply Z.leb_le in Hle. split; [exact Hin|]. split; [exact Hle|].
+    destruct (c_beh c p h); try discriminate Hb. reflexivity.
+  - intros [p [Hin [Hle Hb]]]. exists p. split; [exact Hin|].
+    unfold serves. rewrite Hb. apply Z.leb_le in Hle. rewrite Hle. reflexivity.
+Qed.
+
+Lemma delivers_guard_explicit c sched order h :
+  few_peers c = true -> complete_run c sched order -> In h (heights c) ->
+  (exists p, In p (job_peers c) /\ (h <= c_adv c p)%Z /\ c_beh c p h = ROk) ->
+  memZ h (delivered (task_log c sched order)) = true.
+Proof.
+  intros Hfew Hrun Hh Hex.
+  pose proof (delivers c sched order Hfew Hrun) as Hd.
+  unfold spec_delivers in Hd. rewrite forallb_forall in Hd. specialize (Hd h Hh).
+  apply servable_iff in Hex. rewrite Hex in Hd. exact Hd.
+Qed.
+
+(** mixed reported heights, the peer that is behind sorts first: "near" (1 ms)
+    reports 5, "far" (5 ms) reports 8, heights 4..6, near refuses 6 (it is not
+    asked for it).  availbTask passes over near for height 6. *)
+Definition cfg_behind : config :=
+  mkConfig [PPeer 0; PPeer 1] []
+           (fun p => nth p [1000000; 5000000]%N 0%N) (fun p => nth p [5; 8]%Z (-1)%Z)
+           (fun p h => nth (Z.to_nat (h - 4)) (nth p [[ROk; ROk; RRefuse]; [ROk; ROk; ROk]] []) RRefuse)
+           4 6.
+Definition sched_behind : list event :=
+  [Sort 0; Pick 0; Sort 1; Pick 1; Sort 2; Pick 2;
+   Result 2; Release 2; Result 1; Release 1; Result 0; Release 0].
+
+Example behind_peer_first :
+  few_peers cfg_behind = true /\ complete_run cfg_behind sched_behind []
+  /\ forallb (servable cfg_behind) (heights cfg_behind) = true
+  /\ sort_tasks (init_job cfg_behind) [0; 1] = [0; 1]
+  /\ (c_adv cfg_behind 0 <? 6)%Z = true
+  /\ task_log cfg_behind sched_behind []
+     = [OInit [0; 1]; OReq 4%Z 0; OReq 5%Z 0; OReq 6%Z 1; ODeliver 6%Z 1; ODeliver 5%Z 0; ODeliver 4%Z 0].
+Proof.
+  split; [vm_compute; reflexivity|]. split; [|repeat split; vm_compute; reflexivity].
+  split; [vm_compute; reflexivity|].
+  assert (E : failed_heights (phase_one cfg_behind sched_behind) = []) by (vm_compute; reflexivity).
+  rewrite E. apply perm_nil.
+Qed.
